@@ -193,8 +193,47 @@ def _probe(src, gen, kind):
     return trace[0]
 
 
+def _run_order(task, c):
+    """generate() must not depend on earlier generate() calls: contiguous blocks of first-draw
+    outcomes are visited ascending and then descending within ONE process, each with the lowest
+    and the highest outcome of the remaining draws, and every result goes through the same oracle.
+    A failing case records the scripts that preceded it, so it replays from its saved input."""
+    kind, w, nw = task["kind"], task["w"], task["nw"]
+    gen, rebuild = _targets(c)[kind]
+    res = TaskResult()
+    src = rsource.ScriptedRandom(c.sequence_start.random, None)
+    n = 0
+    with src:
+        root = _probe(src, gen, kind)
+        lo, hi = root.count * w // nw, root.count * (w + 1) // nw
+        hist = []
+        for order in (range(lo, hi), range(hi - 1, lo - 1, -1)):
+            for i in order:
+                _, _, t0 = rsource.run_scripted(src, gen, [i])
+                scripts = [[i] + [0] * (len(t0) - 1)]
+                if len(t0) > 1:
+                    scripts.append([i] + [d.count - 1 for d in t0[1:]])
+                for script in scripts:
+                    obj, exc, trace = rsource.run_scripted(src, gen, script)
+                    n += 1
+                    try:
+                        _oracle(kind, rebuild, obj, exc, trace)
+                    except Violation as v:
+                        v.case["history"] = [list(h) for h in hist[-40:]]
+                        v.clause = v.clause + ":after_earlier_calls"
+                        res.violation(v)
+                        res.extra["order_runs"] = n
+                        return res
+                    hist.append(script)
+    res.extra["order_runs"] = n
+    res.labels[f"{kind} order-dependence runs"] += n
+    return res
+
+
 def run_task(task):
     c = loader.core()
+    if task.get("order"):
+        return _run_order(task, c)
     kind, w, nw = task["kind"], task["w"], task["nw"]
     gen, rebuild = _targets(c)[kind]
     res = TaskResult()
@@ -252,6 +291,9 @@ def plan(tier, seed):
         for w in range(SUBSHARDS[kind]):
             tasks.append({"kind": kind, "w": w, "nw": SUBSHARDS[kind]})
     tasks.sort(key=lambda t: (t["kind"] != "PING", t["kind"], t["w"]))   # big ones first
+    for kind in KINDS:
+        for w in range(4):
+            tasks.append({"kind": kind, "w": w, "nw": 4, "order": True})
     return tasks
 
 
@@ -281,6 +323,14 @@ def replay(case):
     kind = case["kind"]
     gen, rebuild = _targets(c)[kind]
     forced = case["draws"]
+    if case.get("history"):
+        src0 = rsource.ScriptedRandom(c.sequence_start.random, None)
+        with src0:
+            for h in case["history"]:
+                try:
+                    rsource.run_scripted(src0, gen, list(h))
+                except HarnessError:
+                    pass
 
     class _Unreachable(Exception):
         pass
